@@ -223,8 +223,14 @@ def overwrite_shard(shard):
             sim = RiscvSimulation()
             im = sim.state.instruction_memory
             keep = build(("addi", 9, 9, 9), addr + 4)
-            im.write_instruction(addr, build(A, addr))
-            im.write_instruction(addr + 4, keep)
+            if (first + OVERWRITE_SPECS.index(B)) % 2:
+                # the neighbour first: the store is then not filled in ascending address order
+                im.write_instruction(addr + 4, keep)
+                im.write_instruction(addr, build(A, addr))
+                p.counters["listing-of-a-memory-filled-out-of-order"] += 1
+            else:
+                im.write_instruction(addr, build(A, addr))
+                im.write_instruction(addr + 4, keep)
             first_listing = [t for (_a, _h), t, _s in sim.get_instruction_memory_entries()]
             ob = build(B, addr)
             im.write_instruction(addr, ob)
@@ -372,7 +378,39 @@ def exec_shard(shard):
     return p
 
 
+DUP_TEXTS = [
+    "jal x1, 16\nnop\njal x1, 16\nnop\nadd x2, x2, x2\njal x1, 16\n",
+    "jal x0, 0\njal x0, 0\njal x0, 8\njal x0, 8\n",
+    "beq x1, x2, 8\nbeq x1, x2, 8\naddi x1, x1, 1\naddi x1, x1, 1\nbne x1, x0, -8\nbne x1, x0, -8\n",
+    "f: addi x1, x1, 1\njal x5, f\njal x5, f\nbeq x0, x0, f\nbeq x0, x0, f\njal x5, f+0x4\njal x5, f+0x4\n",
+    "lui x3, 4\nlui x3, 4\nlw x1, 4(x3)\nlw x1, 4(x3)\nsw x1, 4(x3)\nsw x1, 4(x3)\nauipc x4, 1\nauipc x4, 1\njalr x0, x1, 4\njalr x0, x1, 4\n",
+]
+
+
+def dup_case(ti):
+    """Programs in which the same line occurs several times (at different addresses): every printed line must assemble,
+    on its own at its own address, to the instruction the source line denotes THERE (pc-relative forms differ per address)."""
+    text = DUP_TEXTS[ti]
+    a = asm.assemble(text)
+    for addr, ins, src in zip(a.addrs, a.ins, [l for l in text.split("\n") if l and not l.endswith(":")]):
+        src = src.split(": ", 1)[-1]
+        # what the source line denotes at this address, assembled on its own behind filler lines (labels re-declared in place)
+        alone = asm.assemble("".join("f: addi x1, x1, 1\n" if (i == 0 and text.startswith("f:")) else "addi x0, x0, 0\n" for i in range(addr // 4)) + src + "\n")
+        want_ins = alone.ins[addr // 4]
+        want = (type(want_ins).__name__, asm.fields_full(want_ins)) + ((want_ins.abs_addr,) if type(want_ins).__name__ == "JAL" else ())
+        got = (type(ins).__name__, asm.fields_full(ins)) + ((ins.abs_addr,) if type(ins).__name__ == "JAL" else ())
+        if got != want:
+            return f"{text!r}: the line {src!r} at {addr} is stored as {got}, on its own at that address it denotes {want}"
+        d = text_denotes(repr(ins), addr, want)
+        if d:
+            return f"{text!r}: line {src!r} at {addr}: {d}"
+    return listing_fixpoint(a)
+
+
 def replay(case):
+    if case["kind"] == "dup":
+        d = dup_case(case["ti"])
+        return [(dict(oracle="repeated-lines", field="differs"), d)] if d else []
     if case["kind"] == "exec":
         spec = tuple(case["spec"])
         return [(dict(oracle="views-while-executing", field=f, mnemonic=spec[0]), d) for f, d in exec_views(spec, case["mode"], case["regval"], case["at"])[:1]]
@@ -418,6 +456,17 @@ def run(ctx):
     part = pmap(overwrite_shard, list(range(len(OVERWRITE_SPECS))))
     ctx.space("listing-after-in-place-overwrite", part, t0, pairs=len(OVERWRITE_SPECS) ** 2, addresses=3)
     ctx.require("listing-after-in-place-overwrite")
+    t0 = time.time()
+    part = Partial()
+    for ti in range(len(DUP_TEXTS)):
+        part.evaluations += 1
+        part.nontrivial += 1
+        part.counters["program-with-repeated-lines"] += 1
+        d = dup_case(ti)
+        if d:
+            part.violation(dict(oracle="repeated-lines", field="differs"), dict(kind="dup", ti=ti), d, size=(ti,))
+    ctx.space("programs-with-repeated-lines", part, t0, texts=len(DUP_TEXTS))
+    ctx.require("program-with-repeated-lines", "listing-of-a-memory-filled-out-of-order")
     t0 = time.time()
     part = pmap(exec_shard, [(i, 32) for i in range(32)])
     ctx.space("views-while-executing", part, t0, specs=len(exec_specs()), modes=2, register_fills=2, addresses=2)
